@@ -237,9 +237,15 @@ CHECKS["C15"] = dict(
          "measurement, not proof: 1/3/5 RawNodes over MemoryStorage are driven through generated schedules (ticks, campaigns, proposals, arbitrary "
          "delivery/loss/duplication/reordering, partitions, crash/restart, compaction forcing MsgSnap, one-entry-per-message paging); after every event the "
          "node's full projection must equal RS.handle's result exactly and every emitted message must be a response the handler computed or valid leader "
-         "traffic (RS.leaderOutB, proved sound); an accepted trace is an RS.Run (RS.driver_step_is_run).",
-    note="Level: proof for the model (Stages A-C), correspondence (lock-step, generated schedules) for handler = code; membership changes (Stage D), ReadIndex "
-         "and leader transfer are outside both. Trusted: Lean kernel (propext, Classical.choice, Quot.sound), the Lean interpreter running the driver, the Go "
+         "traffic (RS.leaderOutB, proved sound); an accepted trace is an RS.Run (RS.driver_step_is_run). STAGE D, FIRST STEP (quorum / configuration layer only): "
+         "an executable model of raft/quorum (MajorityConfig, JointConfig: CommittedIndex, VoteResult), tracker.Config and confchange.Changer (Simple, EnterJoint, "
+         "LeaveJoint, Restore) with kernel-checked RQJ.* theorems - quorum intersection for one config, across a single voter change and across a joint config, "
+         "CommittedIndex / VoteResult specifications, the Changer keeps its invariants and fails only for the reasons it names, Simple changes at most one voter, "
+         "LeaveJoint after EnterJoint yields the requested config - tied to the code by recomputing random JointConfig inputs and random Changer operation sequences "
+         "(Config and ProgressMap compared after every operation).",
+    note="Level: proof for the model (Stages A-C), correspondence (lock-step, generated schedules) for handler = code; for membership changes (Stage D) only the "
+         "quorum / confchange layer is proved and tied - election safety and commitment ACROSS a configuration change are not theorems about the protocol model "
+         "(fixed voter set), and add/remove/promote are judged by the safety predicates on the implementation only; ReadIndex and leader transfer are outside both. Trusted: Lean kernel (propext, Classical.choice, Quot.sound), the Lean interpreter running the driver, the Go "
          "harness's projection/index shift/event classification, MemoryStorage as the persistence layer (the WAL is C16's subject). Flow control is abstracted "
          "(any true log slice is accepted), timers are not modelled (a tick is classified by its effect).",
 )
